@@ -6,6 +6,10 @@ ids = [json.loads(l)["id"] for l in open(os.path.join(VERIF, "properties.jsonl")
 HOOK_COMMITS = ["424bc8f"]
 
 CLAIMED = {
+ "C10": dict(category="proof", design="DESIGN.md §6 C10",
+   text="Coq theorems for every k (no bound; induction on the challenge list), every field and every F-module: create (unrolled first round with arbitrary factor vectors + generic rounds) yields exactly k rounds and verifies against P = <a,gf.G>+<b,hf.H>+<a,b>Q when challenges are non-zero and no round point is the identity (C10_complete); the unrolled round equals the generic round on pre-scaled generators (C10_fast_path); the verdict equals explicit round-by-round folding (C10_verify_is_explicit_fold, C10_s_vector); at most one P is accepted (C10_P_unique); wrong length / 32+ rounds / unequal lists / identity round points are rejected (C10_length, C10_degenerate_rejected). Tied to the code by K5 through hook H1 (L, R as coefficient vectors re-materialised with real generators, a, b, (u^2,u^-2,s), transcript, verdicts) for non-unit factors.",
+   note="Trusted: Coq kernel; model of inner_product_proof.rs (tied by K5 and, inside R1CS runs, K3/K4); field/module laws; oracle idealisation of Merlin. The s-vector loop is modelled in blocked form (block j = prefix scaled by u_sq[lg_n-1-j]); index-exact form is in the shape model (C08).",
+   technique="machine-checked proof in Coq (induction on rounds; extension-ring tactic for module identities) + differential correspondence model/implementation"),
  "C15": dict(category="proof", design="DESIGN.md §6 C15",
    text="Coq theorems over an abstract field: every operator of linear_combination.rs preserves evaluation (C15_operators_sound), every expression tree denotes the field expression it spells (C15_denotation, structural induction), repeated variables accumulate, zero coefficients and Phantom contribute nothing. The model's operators are tied to the code by K2 (term lists of random operator trees built with the real impls, compared exactly) and to provability by one-constraint circuits expr - c run through the real prover/verifier (accept iff c = value).",
    note="Trusted: Coq kernel; the hand-written model of linear_combination.rs (tied by K2 on every run); FieldLaws hypothesis (arkworks Fp is a field); Debug output used to read term lists.",
